@@ -39,6 +39,16 @@ def make_case(rng, cid, enc, nsteps=1, tracemode=0, io=None):
         if rng.chance(1, 3):
             de = (st["PC"] + rng.below(9) - 3) & 0xFFFF
             st["D"], st["E"] = de >> 8, de & 0xFF
+    # 16-bit INC/DEC: the carry / borrow between the halves (low byte 00h / FFh), for every pair incl. SP, IX, IY
+    if table in ("main", "dd", "fd") and op in (0x03, 0x0B, 0x13, 0x1B, 0x23, 0x2B, 0x33, 0x3B) and rng.chance(1, 2):
+        lo = rng.choice([0x00, 0xFF])
+        for r8 in ("C", "E", "L"):
+            st[r8] = lo
+        for r16 in ("SP", "IX", "IY"):
+            st[r16] = (st[r16] & 0xFF00) | lo
+    # DJNZ: B at 0, 1, 2 with C all zeros / all ones (the counter is B alone)
+    if table == "main" and op == 0x10 and rng.chance(1, 2):
+        st["B"], st["C"] = rng.choice([0x01, 0x01, 0x00, 0x02, 0xFF]), rng.choice([0xFF, 0xFF, 0x00, 0x01])
     # counters of the block instructions and DJNZ at their corner values
     if table == "ed" and 0xA0 <= op <= 0xBB and rng.chance(1, 2):
         bc = rng.choice([0x0000, 0x0001, 0x0002, 0x0100, 0x0101, 0x00FF, 0xFF00, 0xFFFF])
